@@ -66,6 +66,8 @@ def run_twin(case, delivered):
         twin_case = {'outline': case['outline'], 'behaviour': case['behaviour'], 'schedule': [], 'pid': case.get('pid', 1)}
     else:
         twin_case = {'program': strip_calls(case['program']), 'schedule': [], 'pid': case.get('pid', 1)}
+        # hooks that only report a status belong to the program, not to the requests
+        twin_case['hooks'] = [h for h in case.get('hooks', []) if h['do'][0] == 'status']
     resumes = list(DEFAULT_RESUMES)
     for serial, value in delivered.items():
         while len(resumes) < serial:
